@@ -226,9 +226,9 @@ def main(tier, seed, replay=None):
     ev.add_tlc("MC_Summaries histories depth %d" % d, res)
     hs = res.tagged("H")
     if tier == "quick" and len(hs) > 20000:
-        hs = hs[seed % 2::2]
+        hs = par.sample(hs, 2, seed)
     elif len(hs) > 120000:
-        hs = hs[seed % 4::4]
+        hs = par.sample(hs, 4, seed)
     root = tlc.scratch_dir("vp_c20_")
     try:
         jobs = []
